@@ -32,4 +32,22 @@ var specs = map[string]checkSpec{
 		Stubs: commonStubs,
 		Assume: commonAssume,
 	},
+	"C07": {
+		Level: "exploration",
+		Quick: budget{Runs: 1500, Chunk: 100},
+		Thor:  budget{Seconds: 900, Chunk: 300},
+		Rule:  "All sequences of length 1-4 over {Start, Stop(timeout), cancel the system context} are drawn, issued sequentially (checked call by call against the documented state machine) or from 2-3 goroutines concurrently (at most one Start and one Stop succeed, only documented errors), on systems with an empty tree, a small tree, and a tree with scheduled jobs; then a final Stop and quiescence. Oracles: every call returns (a call still blocked at the horizon is reported with what it waits for), Stop returns within its timeout on the simulated clock, all actors terminated, no registered goroutine of the system alive after Stop.",
+		Real:  commonReal,
+		Stubs: commonStubs,
+		Assume: commonAssume,
+	},
+	"C03": {
+		Level: "exploration",
+		Quick: budget{Runs: 1500, Chunk: 100},
+		Thor:  budget{Seconds: 900, Chunk: 300},
+		Rule:  "Whole-system scenarios: a supervised tree of up to 8 actors, 5-18 operations from 1-3 outside senders and from actors (tells through references obtained by ActorOf / Clone / ParseRef / CreateRef, bursts with a failing message at a drawn position and a drawn supervision decision, kills racing tells, tells to terminated and never-existing paths, Stash/Unstash, actors turned into zombies). At quiescence every message id is accounted: handed to a behaviour (net of stashing) + still stashed + DeathLetterEvents carrying it == 1 (zombie targets exempt). Then Stop, more tells, quiescence again: nothing is processed, nothing spins.",
+		Real:  commonReal,
+		Stubs: commonStubs,
+		Assume: commonAssume,
+	},
 }
